@@ -184,8 +184,20 @@ func resultNames(sig *types.Signature, ct *Contract) []string {
 func (e *Enc) callContract(fr *Frame, st *State, c *ssa.Call, callee *ssa.Function, ct *Contract, args []string) *State {
 	cc := c.Common()
 	vars := map[string]tval{}
-	for i, n := range paramNames(callee, ct) {
-		vars[n] = tval{t: args[i], typ: callee.Params[i].Type()}
+	if ct.IsIface {
+		// interface contract applied to a concrete method: parameters are named after the receiver
+		vars["self"] = tval{t: args[0], typ: callee.Params[0].Type()}
+		for i := 1; i < len(callee.Params); i++ {
+			n := callee.Params[i].Name()
+			if i-1 < len(ct.Params) {
+				n = ct.Params[i-1]
+			}
+			vars[n] = tval{t: args[i], typ: callee.Params[i].Type()}
+		}
+	} else {
+		for i, n := range paramNames(callee, ct) {
+			vars[n] = tval{t: args[i], typ: callee.Params[i].Type()}
+		}
 	}
 	env := &ExprEnv{e: e, fr: fr, vars: vars, st: st, old: st, a0: st.nxt, pkg: pkgOf(callee)}
 	text := e.exprText(c.Pos(), "call")
@@ -208,7 +220,9 @@ func (e *Enc) callContract(fr *Frame, st *State, c *ssa.Call, callee *ssa.Functi
 			pure = false
 		}
 	}
-	if pure || e.spec.pure[shortName(callee)] {
+	if e.readerUF(callee) {
+		e.ufResult(fr, c, e.readerName(callee, st), args, cc.Args)
+	} else if pure || e.spec.pure[shortName(callee)] {
 		e.ufResult(fr, c, "X_"+san(shortName(callee)), args, cc.Args)
 	} else {
 		st = e.havocCall(fr, st, c, false)
@@ -500,6 +514,30 @@ func (e *Enc) loopCands(fr *Frame, li *loopInfo) []*invCand {
 			li.cands = append(li.cands, c)
 		}
 	}
+	// range-over-slice loops: the index stays below the length
+	if ifi, ok := li.head.Instrs[len(li.head.Instrs)-1].(*ssa.If); ok {
+		if cmp, ok := ifi.Cond.(*ssa.BinOp); ok && cmp.Op.String() == "<" {
+			if inc, ok := cmp.X.(*ssa.BinOp); ok && inc.Op.String() == "+" {
+				if ph, ok := inc.X.(*ssa.Phi); ok && ph.Comment == "rangeindex" && ph.Block() == li.head {
+					bound := cmp.Y
+					e.n++
+					c := &invCand{id: e.n, auto: true, name: fmt.Sprintf("loop %d auto rangeindex<len", li.ord)}
+					c.eval = func(st *State, phiVal func(*ssa.Phi) string) (string, error) {
+						b, ok := fr.vals[bound]
+						if !ok {
+							if cst, isC := bound.(*ssa.Const); isC {
+								b = e.constVal(cst)
+							} else {
+								return "", fmt.Errorf("no bound")
+							}
+						}
+						return "(< " + phiVal(ph) + " " + b + ")", nil
+					}
+					li.cands = append(li.cands, c)
+				}
+			}
+		}
+	}
 	// automatic candidates (kept only if inductive: Houdini)
 	for _, in := range li.head.Instrs {
 		ph, ok := in.(*ssa.Phi)
@@ -518,6 +556,15 @@ func (e *Enc) loopCands(fr *Frame, li *loopInfo) []*invCand {
 				return fmt.Sprintf("(or (= (sarr %s) 0) (>= (sarr %s) %s))", v, v, fr.a0), nil
 			}
 			li.cands = append(li.cands, c)
+		case *types.Basic:
+			if isInteger(ph.Type()) && ph.Comment != "rangeindex" {
+				e.n++
+				c := &invCand{id: e.n, auto: true, name: fmt.Sprintf("loop %d auto nonneg(%s)", li.ord, phiName(ph))}
+				c.eval = func(st *State, phiVal func(*ssa.Phi) string) (string, error) {
+					return "(>= " + phiVal(ph) + " 0)", nil
+				}
+				li.cands = append(li.cands, c)
+			}
 		case *types.Map, *types.Pointer:
 			if fr.inl {
 				continue
@@ -835,6 +882,11 @@ func (e *Enc) loopBack(fr *Frame, li *loopInfo, from *ssa.BasicBlock, st *State)
 	pi := predIndex(li.head, from)
 	save := e.cur
 	e.cur = e.edgeCond(fr, from, li.head)
+	if !fr.inl && !li.vacDone {
+		// vacuity canary: some back edge of every loop must be reachable under the assumed invariants
+		li.vacDone = true
+		e.addOb(fr, "VAC", "loopbody", loopPos(li.head), fmt.Sprintf("loop %d back edge", li.ord), "false", false)
+	}
 	for _, c := range e.loopCands(fr, li) {
 		li.point = "back"
 		f, err := c.eval(st, func(ph *ssa.Phi) string { return e.val(fr, ph.Edges[pi]) })
@@ -988,7 +1040,7 @@ func (e *Enc) debugVars(fr *Frame, at *ssa.BasicBlock, st *State, vars map[strin
 						if ref, ok := fr.vals[al]; ok {
 							el := al.Type().Underlying().(*types.Pointer).Elem()
 							a := e.addrOfRef(ref, el)
-							local[n] = tval{t: e.load(fr, st, a), typ: el}
+							local[n] = tval{typ: el, cell: a}
 						}
 					}
 					continue
@@ -1057,6 +1109,11 @@ func (e *Enc) verifyFunc() {
 			fr.contract = ct
 			if len(f.Params) > 0 {
 				vars["self"] = tval{t: fr.vals[f.Params[0]], typ: f.Params[0].Type()}
+				for i := 1; i < len(f.Params); i++ {
+					if i-1 < len(ct.Params) {
+						vars[ct.Params[i-1]] = tval{t: fr.vals[f.Params[i]], typ: f.Params[i].Type()}
+					}
+				}
 			}
 		}
 	}
@@ -1145,7 +1202,7 @@ func (e *Enc) bindFreeVars(fr *Frame, st *State, vars map[string]tval) {
 			continue
 		}
 		a := e.addrOfRef(fr.vals[fv], pt.Elem())
-		vars[fv.Name()] = tval{t: e.load(fr, st, a), typ: pt.Elem()}
+		vars[fv.Name()] = tval{typ: pt.Elem(), cell: a}
 	}
 }
 
@@ -1259,5 +1316,102 @@ func (e *Enc) finish() {
 	sort.Strings(gs)
 	if len(gs) > 1 {
 		e.assume("(distinct " + strings.Join(gs, " ") + ")")
+	}
+}
+
+// callOrdinal: the position (1-based, source order) of call c among the static calls of the same callee
+// in its function.
+func callOrdinal(f *ssa.Function, c *ssa.Call) (string, int) {
+	callee := c.Common().StaticCallee()
+	if callee == nil {
+		return "", 0
+	}
+	name := shortName(callee)
+	var calls []*ssa.Call
+	for _, b := range f.Blocks {
+		for _, in := range b.Instrs {
+			if x, ok := in.(*ssa.Call); ok {
+				if cc := x.Common().StaticCallee(); cc != nil && shortName(cc) == name {
+					calls = append(calls, x)
+				}
+			}
+		}
+	}
+	sort.Slice(calls, func(i, j int) bool { return calls[i].Pos() < calls[j].Pos() })
+	for i, x := range calls {
+		if x == c {
+			return name, i + 1
+		}
+	}
+	return name, 0
+}
+
+func siteMatches(sc SiteClause, name string, k int) bool {
+	return sc.K == k && (sc.Callee == name || strings.HasSuffix(name, "."+sc.Callee) || strings.HasSuffix(name, sc.Callee))
+}
+
+func (e *Enc) siteEnv(fr *Frame, at *ssa.BasicBlock, st *State) *ExprEnv {
+	vars := map[string]tval{}
+	for i, n := range paramNames(fr.fn, fr.contract) {
+		vars[n] = tval{t: fr.vals[fr.fn.Params[i]], typ: fr.fn.Params[i].Type()}
+	}
+	e.bindFreeVars(fr, st, vars)
+	e.debugVars(fr, at, st, vars)
+	return &ExprEnv{e: e, fr: fr, vars: vars, st: st, old: fr.entry, a0: fr.a0, pkg: pkgOf(fr.fn)}
+}
+
+// siteAsserts: assertions attached to this call site (checked just before the call).
+func (e *Enc) siteAsserts(fr *Frame, st *State, c *ssa.Call) {
+	ct := fr.contract
+	if ct == nil || fr.inl || len(ct.Asserts) == 0 {
+		return
+	}
+	name, k := callOrdinal(fr.fn, c)
+	for _, sc := range ct.Asserts {
+		if !siteMatches(sc, name, k) {
+			continue
+		}
+		env := e.siteEnv(fr, c.Block(), st)
+		// arguments of the call are visible as arg0, arg1, ...
+		for i, a := range c.Common().Args {
+			env.vars[fmt.Sprintf("arg%d", i)] = tval{t: e.val(fr, a), typ: a.Type()}
+		}
+		f, err := env.formula(sc.Clause.Text)
+		if err != nil {
+			e.bindErr(ct, sc.Clause, err)
+			continue
+		}
+		o := e.addOb(fr, "POST", "assert", c.Pos(), fmt.Sprintf("before %s#%d: %s", sc.Callee, sc.K, sc.Clause.Text), f, false)
+		o.tags = sc.Clause.Tags
+		e.assumeG(f)
+	}
+}
+
+// siteGhosts: ghost Booleans defined at the end of the block that contains their call site.
+func (e *Enc) siteGhosts(fr *Frame, b *ssa.BasicBlock, st *State) {
+	ct := fr.contract
+	if ct == nil || fr.inl || len(ct.Ghosts) == 0 {
+		return
+	}
+	for _, in := range b.Instrs {
+		c, ok := in.(*ssa.Call)
+		if !ok {
+			continue
+		}
+		name, k := callOrdinal(fr.fn, c)
+		for _, sc := range ct.Ghosts {
+			if !siteMatches(sc, name, k) {
+				continue
+			}
+			env := e.siteEnv(fr, b, st)
+			f, err := env.formula(sc.Clause.Text)
+			if err != nil {
+				e.bindErr(ct, sc.Clause, err)
+				continue
+			}
+			g := e.freshConst("ghost_"+san(sc.Name), "Bool")
+			e.define(g, "(and "+e.cur+" "+f+")")
+			e.ghost[sc.Name] = g
+		}
 	}
 }
